@@ -4,10 +4,11 @@
    functional on every row; the correspondence then checks on every run that the CSR matrices the real
    solvers assemble equal these rows, and that the real solve has zero residual under the independent
    residual operator.
-   NOT proved: A (solve b) = b for the sparse LU (see Properties_C16.v) and rounding.
+   Proved as well: the sparse LU both solvers use returns x with A x = b in exact arithmetic for every matrix whose pivots do
+   not vanish (SparseLUSolve.v; also stated in Properties_C16.v).  NOT proved: rounding, and that no pivot vanishes for A.
    (* FULL: forall b, residual (solve b) = 0 up to rounding, and solve_give b = solve_take b *) *)
 From Coq Require Import List ZArith Bool Reals.
-From GMGP Require Import Scalar ScalarR InterpDefs StencilDefs StencilProofs SparseLUDefs SparseLUProofs.
+From GMGP Require Import Scalar ScalarR InterpDefs StencilDefs StencilProofs SparseLUDefs SparseLUProofs SparseLUElim SparseLUSolve.
 Import ListNotations.
 Local Open Scope R_scope.
 
@@ -26,4 +27,14 @@ Theorem C04_storage_order_irrelevant_partial : forall (S : Sc) j (es es' : list 
   NoDup (map fst es) -> Permutation.Permutation es es' -> get0 j (load es) = get0 j (load es').
 Proof. exact @storage_order_irrelevant. Qed.
 
+(* the in-place coarse solve inverts the matrix it was given: A x = b exactly (exact arithmetic), for every size *)
+Theorem C04_coarse_solve_inverts_the_assembled_matrix : forall (rows : list (list (Z * R))) (b : list R),
+  let n := length rows in
+  length b = n ->
+  (forall a, In a rows -> forall e, In e a -> (0 <= fst e < Z.of_nat n)%Z) ->
+  pivots_nonzero 0 rows [] ->
+  @csr_apply Rsc rows (@lu_solve Rsc (@lu_factor Rsc rows) b) = b.
+Proof. exact lu_solve_correct. Qed.
+
 Print Assumptions C04_both_strategies_assemble_one_operator_partial.
+Print Assumptions C04_coarse_solve_inverts_the_assembled_matrix.
